@@ -255,7 +255,7 @@ def run(tier):
             except Exception as e:  # noqa
                 results[i] = {"kind": "tool", "detail": repr(e), "secs": 0}
 
-    ths = [threading.Thread(target=worker) for _ in range(6 if tier == "quick" else 5)]
+    ths = [threading.Thread(target=worker) for _ in range(4)]
     for t in ths:
         t.start()
     for t in ths:
